@@ -2,14 +2,15 @@
 Line-protocol driver for C10 (see harness/cmd/vh/c10.go for the grammar).
 
   fmt <cellNumeric> <value> N <isnum> <prec> <pfbits> <abs> <big0> <big1>
-      D <t0:8 ints> <t1:8 ints> <hour1900>
+      D <t0:8 ints> <t1:8 ints> <hour1900> I <date1904> <unix seconds of t0>
       L <n> { <code> <ok> <era> <ap> <m3> <m4> <m5> <wdA> <wd> <m3'> <m4'> <m5'> <wdA'> <wd'> }
       S <n> { <type> <k> { <ttype> <tvalue> <p> { <ptype> <pvalue> <langok> } } }
-    -> <ok hex | PANIC | UNMODELLED> C=<conf> X=<exact fixed rendering | ->
+    -> <ok hex | PANIC | UNMODELLED> C=<conf> X=<exact fixed rendering | -> T=<fields = C19 civilOf of the instant> A=<AM/PM patterns in the regenerated table>
   comma <text>      -> printCommaSep
 All strings hex ("-" = empty).
 -/
 import XlModel.NumFmtFloat
+import XlModel.NumFmtDate
 import XlModel.Drv.Util
 namespace XlModel.Drv.C10
 open XlModel XlModel.NumFmt XlModel.Drv
@@ -133,9 +134,17 @@ def fmtOp : P String := do
     | none => failure
   lit "D"
   let t0 ← timeF; let t1 ← timeF; let h1900 ← nat
+  lit "I"
+  let d1904 ← flag; let unix0 ← int
   lit "L"
   let nl ← nat
   let rows ← many locRow nl
+  -- join with the calendar model of C19: the fields the real code read are those of the instant
+  let inst0 : Int := unix0 * 1000000000 + (t0.nano : Int)
+  let tOk := decide (timeFOfInstant inst0 d1904 = t0) && decide (timeFOfInstant (inst0 + 1000000000) d1904 = t1)
+  -- every AM/PM pattern of a supported locale row is in the regenerated table
+  let table := Facts.C10.apFmts.map bytesOf
+  let aOk := rows.all fun r => !r.l0.ok || table.contains r.l0.apFmt
   lit "S"
   let ns ← nat
   let secs ← many sec ns
@@ -149,7 +158,7 @@ def fmtOp : P String := do
     | .ok s => "ok " ++ hexS s
     | .panic => "PANIC"
     | .unmodelled => "UNMODELLED"
-  pure (r ++ " " ++ confStr secs cellNumeric n ++ " " ++ exactStr secs value cellNumeric n)
+  pure (r ++ " " ++ confStr secs cellNumeric n ++ " " ++ exactStr secs value cellNumeric n ++ " T=" ++ b01 tOk ++ " A=" ++ b01 aOk)
 
 def step (w : List String) : String :=
   match w with
